@@ -3,7 +3,7 @@
    Instantiated for the little-endian host the implementation is executed on
    (helpers = the little-endian branch of Byteorder.h as generated). *)
 From Coq Require Import List NArith Bool String.
-From O1722 Require Import Bits CExpr Host FieldModel AccModel Spec.
+From O1722 Require Import Bits CExpr Host FieldModel AccModel LegacyModel Spec.
 From O1722.Generated Require Import Byteorder Tables.
 Import ListNotations.
 Local Open Scope N_scope.
@@ -89,4 +89,26 @@ Definition m_helper (be_branch:bool) (k:hkind) (w:hwidth) (x:N) : res :=
   match eval x ((if be_branch then helpers_BE else helpers_LE) k w) with
   | Some r => RVal r
   | None => RUnmod
+  end.
+
+(* ---- deprecated entry points ---- *)
+Inductive lout := LR (ok:bool) (pdu:option buf) (r:option N) | LOob | LUnmod | LNoSuch.
+Fixpoint find_legacy_all (lu:list (string * list legacy)) (n:string) : option (string * list legacy * legacy) :=
+  match lu with
+  | [] => None
+  | (src, ls) :: r => match find_legacy ls n with Some l => Some (src, ls, l) | None => find_legacy_all r n end
+  end.
+Definition m_legacy (name:string) (pdu:option buf) (params:list N) (r:option N) : lout :=
+  match find_legacy_all legacy_units name with
+  | Some (src, ls, l) =>
+      match find_unit all_units src with
+      | Some u => match run_legacy m_ldq m_stq cfg u ls l pdu params r with
+                  | Ok (LOk, p, x) => LR true p x
+                  | Ok (LEinval, p, x) => LR false p x
+                  | OOB _ => LOob
+                  | Unmodelled => LUnmod
+                  end
+      | None => LNoSuch
+      end
+  | None => LNoSuch
   end.
